@@ -73,6 +73,11 @@ def affine(draw, dim, allow_reflection=True):
         if np.linalg.cond(An) > 12:
             continue
         b = [draw(st.integers(-4, 4)) / 2.0 for _ in range(dim)]
+        # length unit of the model (mm, m, km, micrometres): a uniform scale on top of the map
+        unit = draw(st.sampled_from([1.0, 1.0, 1.0, 1.0, 1e-3, 1e3, 1e-6]))
+        if unit != 1.0:
+            A = [[a * unit for a in row] for row in A]
+            b = [v * unit for v in b]
         return A, b
     return None, None
 
@@ -175,6 +180,15 @@ def rebuild(mesh: Mesh, coord: np.ndarray, perm: np.ndarray | None = None, copy_
                 ng.Set_Tag(perm[nodes], tag)
         d[et] = ng
     return Mesh(d)
+
+
+def length_unit(recipe: dict) -> float:
+    """power of ten nearest to the mean stretch of the affine map of the recipe (1 when there is none)"""
+    A = recipe.get("A")
+    if A is None:
+        return 1.0
+    sv = np.linalg.svd(np.array(A, float), compute_uv=False)
+    return float(10.0 ** np.round(np.log10(np.exp(np.mean(np.log(sv))))))
 
 
 def build(recipe: dict) -> Mesh:
